@@ -275,6 +275,58 @@ def Acc.revert (a : Acc) (free : Bool) : Acc × Bool :=
   | some p => a.update p
   | none => (a, false)
 
+/-! ### The requests HAProxy's admin API receives (`config/update_endpoints.go`)
+
+Kept beside `Acc.update/reload/revert` (same case structure) so that the state machine above stays small: the
+calls are a function of the accessor state BEFORE the step.  Each policies file has one endpoint
+(`GET verif.example/p<k>`), listed once per enabled endpoint remedy and once per enabled endpoint diagnosis
+(`BuildHAProxyEndpointsRequest`: remedies first). -/
+
+inductive AdminCall where
+  | bodyAll                 -- PUT /include_body_from_all
+  | manageAll               -- PUT /manage_all
+  | unmanageGlobal          -- DELETE /unmanage_global
+  | putEp (k : Nat)         -- PUT /managed_endpoint
+  | putBody (k : Nat)       -- PUT /include_body_from
+  | delEp (k : Nat)         -- DELETE /managed_endpoint
+  | delBody (k : Nat)       -- DELETE /include_body_from
+  | delCapture (k : Nat)    -- DELETE /capture_req_from
+deriving Repr, DecidableEq
+
+def endpointEntries (p : Pol) : List Nat :=
+  (if p.r then [p.k] else []) ++ (if p.e then [p.k] else [])
+
+/-- `ManageHAProxyEndpoints`: with a global plugin only manage-all is asked for (the body-from-all error is
+    ignored); otherwise every entry is put, stopping at the first refusal. -/
+def manageCalls (fail : Bool) (p : Pol) : List AdminCall :=
+  if p.g then [.bodyAll, .manageAll]
+  else if fail then (match endpointEntries p with | [] => [] | k :: _ => [.putEp k])
+  else (endpointEntries p).flatMap fun k => [.putEp k, .putBody k]
+
+/-- The IMMEDIATE un-manage of the fail-safe path (`unmanageImmediately`): entries of the previous policies
+    whose endpoint the new ones do not list (stopping at the first refusal), then manage-all if only the
+    previous policies wanted it (`unmanageStaleGlobal` → `unmanageGlobal`, never `UnmanageAll`). -/
+def unmanageCalls (fail : Bool) (prev new : Pol) : List AdminCall :=
+  let gone := (endpointEntries prev).filter fun k => !(endpointEntries new).contains k
+  (if fail then (match gone with | [] => [] | k :: _ => [.delEp k])
+   else gone.flatMap fun k => [.delEp k, .delBody k, .delCapture k])
+  ++ (if prev.g && !new.g then [.unmanageGlobal] else [])
+
+/-- `UpdatePoliciesData`; a reload only SCHEDULES its un-manage (30 s later, on the engine's clock). -/
+def updateCalls (fail : Bool) (prev new : Pol) (immediately : Bool) : List AdminCall :=
+  manageCalls fail new ++
+    (if fail && needsAdmin new then [] else if immediately then unmanageCalls fail prev new else [])
+
+def Acc.reloadCalls (a : Acc) : List AdminCall :=
+  match a.file.content with
+  | some p => updateCalls a.adminFail a.cur p false
+  | none => []
+
+def Acc.revertCalls (a : Acc) (free : Bool) : List AdminCall :=
+  match (if free then a.loadedFree else a.loadedFull) with
+  | some p => updateCalls a.adminFail a.cur p true
+  | none => []
+
 /-! ### The wired system -/
 
 inductive Op where
@@ -324,6 +376,16 @@ def sysStep (cfg : Cfg) (s : Sys) : Op → Sys × Ans
     match s.acc with
     | none => (s, .noAcc)
     | some a => ({ s with acc := some (a.revert free).1 }, .upd (a.revert free).2 (a.revert free).1.cur)
+
+/-- The admin requests made during a step (by the reaction, for a health check). -/
+def sysCalls (cfg : Cfg) (s : Sys) : Op → List AdminCall
+  | .obs lat h =>
+    match s.acc, (step cfg s.w ⟨(predicate s.thr h).1, lat⟩).2.react with
+    | some a, some sv => a.revertCalls (!sv)
+    | _, _ => []
+  | .reload => (match s.acc with | some a => a.reloadCalls | none => [])
+  | .revert free => (match s.acc with | some a => a.revertCalls free | none => [])
+  | _ => []
 
 /-- The observable history: every op with its answer, oldest first. -/
 def sysRun (cfg : Cfg) : Sys → List Op → List (Op × Ans)
